@@ -26,7 +26,7 @@ func main() {
 		job.Dir = fs.Arg(0)
 		job.Args = fs.Args()[1:]
 		job.ID = "one"
-		res := doJob(job, []string{"noop"})
+		res := doJob(job, []string{"noop", ""}, true, true)
 		json.NewEncoder(os.Stdout).Encode(res)
 	default:
 		fmt.Fprintln(os.Stderr, "unknown command")
